@@ -21,4 +21,17 @@ def asMap : Y → List (String × Y) × Bool
   | .map kvs => (kvs, true)
   | _ => ([], false)
 
+/-- `m[k] = v` on a `map[string]any`: the entry of an existing key is replaced in place (the walk
+order of the other entries is untouched), a new key is added (at the end: any position would do, the
+theorems quantify over all orders) -/
+def amapSet (m : List (String × Y)) (k : String) (v : Y) : List (String × Y) :=
+  match m with
+  | [] => [(k, v)]
+  | (k', v') :: rest => if k' == k then (k', v) :: rest else (k', v') :: amapSet rest k v
+
+/-- Go `error` in translated gconfig code: `nil` is `none`, any error value is `some ()` - WHICH
+error it is (type, message, arguments) is not modelled; the translated fragment only ever tests
+`err != nil` / `err == nil` and hands errors on -/
+abbrev Err := Option Unit
+
 end GoAny
